@@ -996,6 +996,16 @@ func (fv *FnV) loopHead(li *loopInfo, st *State) error {
 		fv.vals[phi] = fv.fromTerm(n, phi.Type())
 	}
 	fv.havoc(st, li.mods, "loop")
+	// a call inside the loop may or may not have been made in an earlier iteration: its reached-flag is unknown here
+	// (and in the code after the loop), not false
+	for blk := range li.body {
+		for _, bi := range blk.Instrs {
+			if c, ok := bi.(ssa.CallInstruction); ok && c.Pos().IsValid() {
+				flag := fmt.Sprintf("X|call%d", int(c.Pos()))
+				st.heap[flag] = fv.c.Fresh("maybe!called", sBool)
+			}
+		}
+	}
 	for _, ins := range b.Instrs {
 		if phi, ok := ins.(*ssa.Phi); ok {
 			fv.assume(st, fv.wf(li.phis[phi], phi.Type(), st.now))
